@@ -349,7 +349,18 @@ def run(prog, rep, tier, repo):
                         ok = tag(src) == 'field' and src[2] == 0 and tag(piv) == 'field' and piv[2] == 1 and src[1] == piv[1] and tag(src[1]) == 'call' and src[1][1] == M + '::lu'
                     else:
                         ok = src == ('arg', 1, f.names.get(1)) and piv == ('arg', 2, f.names.get(2))
-        (rep.ok if ok else rep.viol)('det-wiring', key, 'det = prod(diag(LU)) * parity(pivots)' if ok else 'determinant is %s' % [show(r)[:120] for r in rets], site_of(f.body))
+        # refuted in the read form only: one returned expression over prod / diag / ipiv_parity / lu, with no helper and no branch-assigned local in it
+        czall = [z[1] for r in rets for z in subterms(r) if tag(z) == 'call']
+        cz = [short(q) for q in czall if not (q.startswith('core::num::') or q.startswith('std::f64::') or q.startswith('core::f64::'))]   # integer / float methods are read
+        read = len(rets) == 1 and bool(cz) and set(cz) <= {'prod', 'diag', 'ipiv_parity', 'lu'} and ('prod' in cz or 'diag' in cz) \
+            and not any(tag(z) in ('local', 'phi', 'upvar') for z in subterms(rets[0]))
+        if ok:
+            rep.ok('det-wiring', key, 'det = prod(diag(LU)) * parity(pivots)')
+        elif read:
+            rep.viol('det-wiring', key, 'determinant is %s' % [show(r)[:120] for r in rets], site_of(f.body))
+        else:
+            rep.undecided('det-wiring', key, 'determinant is not one expression over prod(diag(..)) and ipiv_parity(..) (%s): not read' % [show(r)[:80] for r in rets],
+                          site_of(f.body), proof=False)
     rep.floor('det-wiring', 2, 'det, lu_det')
 
     # ------------------------------------------------------------------ D7 parity of the pivot vector
